@@ -51,9 +51,6 @@ def build(flavour, verbose=False):
             flags = [f for f in flags if f != "-fsanitize=thread"]
         if flavour == "cov":   # (harness units too: the header-only parts of the library are instantiated there)
             flags = flags + ["-fprofile-instr-generate", "-fcoverage-mapping"]
-        if flavour == "tsan" and os.path.basename(src) == "eng_threads.cpp":
-            # the header-only parts of the library used by the thread workloads are instantiated here: pre-emptible as well
-            flags = flags + ["-fsanitize-coverage=trace-pc-guard"]
         if flavour == "tsan" and src.startswith(os.path.join(REPO, "src")) and "/bin/" not in src:
             # pre-emption points: one callback per basic block of library code (sched.cpp)
             flags = flags + ["-fsanitize-coverage=trace-pc-guard"]
